@@ -26,7 +26,7 @@ def obligations():
     obls = [dict(
         name="c18_wf_all_dates",
         stmt="forallb (c18_wf_at PA) date_classes = true",
-        proof="vm_compute. reflexivity.",
+        proof="vm_cast_no_check (@eq_refl bool true).",
         what="every piecewise schedule of every parameter group, at every date class of the regenerated "
              "YAML, converts to strictly increasing pieces covering the real line (=> evaluated exactly, "
              "C18_all_schedules_exact)",
@@ -35,7 +35,7 @@ def obligations():
         obls.append(dict(
             name=f"c18_{chk}_all_dates",
             stmt=f'forallb (c18_named_at PA "{g}" "{k}" {chk}) date_classes = true',
-            proof="vm_compute. reflexivity.",
+            proof="vm_cast_no_check (@eq_refl bool true).",
             what=f"{what} — at every date class",
             diag=f'c18_named_diag PA "{g}" "{k}" {chk} date_classes'))
     return obls
